@@ -102,8 +102,7 @@ never returns data; an operation-failure error carries the response's status; a 
 object (KMIPProxy-only operations) carries the response's status, reason and message. -/
 theorem never_success_on_failure {P} (op : Op) (it : Item P) (hs : it.status ≠ 0) :
     (∀ d, handle op it ≠ .returned d) ∧
-    (∀ cls st r m, handle op it = .failure cls st r m → st = it.status ∧ it.reason = some r ∧
-        (m = it.message ∨ it.message = none)) ∧
+    (∀ cls st r m, handle op it = .failure cls st r m → st = it.status ∧ it.reason = some r ∧ m = it.message) ∧
     (∀ cls st r m p, handle op it = .result cls st r m p → st = it.status ∧ r = it.reason ∧ m = it.message) := by
   refine ⟨?_, ?_, ?_⟩
   · intro d
